@@ -13,7 +13,12 @@ from the confirmed tree, so the confirmed tree itself is always analysed as writ
                                                                                                 unless all targets are locals)
   (d) one-field unpacking      `(a,) = struct.unpack(F, s)`->  `a = struct.unpack(F, s)[0]`   (F a literal one-field format)
   (e) in-memory stream         `with BytesIO() as f: B`    ->  `f = BytesIO()` ; B
-  (f) starred display          `[x, *ys[1:]]` stays; `[*g, t]` with g a generator/comprehension stays (not rewritten)
+  (f) display ending in *name  `(a, b, c) = (x, *rest)`     ->  `a = x` ; `(b, c) = rest`
+  (g) local kept unless        `x = x or D`                ->  `if not x: x = D`              (x a local name)
+                               `x = D if T else x`         ->  `if T: x = D`
+  (i) empty then-branch        `if T: pass / else: B`      ->  `if not T: B`
+  (j) suppressed exceptions    `with contextlib.suppress(E): B` -> `try: B / except E: pass`
+  (h) extend from a generator  `L.extend(E for i in R)`    ->  `for i in R: L.append(E)`      (list.extend appends element by element)
 """
 import ast
 import struct
@@ -298,6 +303,48 @@ class Lower(object):
                         ast.copy_location(y, s)
                 self.log(s, '`%s` read as a conditional re-assignment of the local `%s`' % (ast.unparse(s)[:50], x))
                 return [n]
+        # (i) an empty then-branch: the else-branch runs when the test fails
+        if isinstance(s, ast.If) and s.orelse and all(isinstance(x, ast.Pass) for x in s.body):
+            t = s.test
+            neg = t.operand if isinstance(t, ast.UnaryOp) and isinstance(t.op, ast.Not) else ast.UnaryOp(op=ast.Not(), operand=t)
+            ast.copy_location(neg, t)
+            s.test = neg
+            s.body, s.orelse = s.orelse, []
+            self.log(s, '`if ...: pass / else:` read as the negated test')
+            return [s]
+        # (j) exceptions suppressed by a context manager: `with contextlib.suppress(E): B` is `try: B / except E: pass`
+        if isinstance(s, ast.With) and len(s.items) == 1 and s.items[0].optional_vars is None and isinstance(s.items[0].context_expr, ast.Call) \
+                and ast.unparse(s.items[0].context_expr.func) in ('contextlib.suppress', 'suppress') and s.items[0].context_expr.args and not s.items[0].context_expr.keywords:
+            a = s.items[0].context_expr.args
+            typ = a[0] if len(a) == 1 else ast.Tuple(elts=list(a), ctx=ast.Load())
+            h = ast.ExceptHandler(type=typ, name=None, body=[ast.Pass()])
+            t = ast.Try(body=list(s.body), handlers=[h], orelse=[], finalbody=[])
+            for x in ast.walk(t):
+                if not hasattr(x, 'lineno'):
+                    ast.copy_location(x, s)
+            ast.copy_location(t, s)
+            self.log(s, '`with contextlib.suppress(...)` read as try/except/pass')
+            return [t]
+        # (h) a list extended from a generator expression appends element by element, as the loop does
+        if (isinstance(s, ast.Expr) and isinstance(s.value, ast.Call) and isinstance(s.value.func, ast.Attribute) and s.value.func.attr == 'extend'
+                and isinstance(s.value.func.value, ast.Name) and len(s.value.args) == 1 and not s.value.keywords
+                and isinstance(s.value.args[0], ast.GeneratorExp) and len(s.value.args[0].generators) == 1 and not s.value.args[0].generators[0].is_async):
+            g = s.value.args[0]
+            c = g.generators[0]
+            app = ast.Expr(value=ast.Call(func=ast.Attribute(value=ast.Name(id=s.value.func.value.id, ctx=ast.Load()), attr='append', ctx=ast.Load()), args=[g.elt], keywords=[]))
+            inner = app
+            for t in reversed(c.ifs):
+                inner = ast.If(test=t, body=[inner], orelse=[])
+            loop = ast.For(target=c.target, iter=c.iter, body=[inner], orelse=[])
+            for x in ast.walk(loop):
+                if not hasattr(x, 'lineno'):
+                    ast.copy_location(x, s)
+            ast.copy_location(loop, s)
+            for x in ast.walk(loop.target):
+                if hasattr(x, 'ctx'):
+                    x.ctx = ast.Store()
+            self.log(s, '`%s.extend(<generator>)` read as the loop that appends' % s.value.func.value.id)
+            return [loop]
         # (d) one-field struct unpacking by a one-element target
         if (isinstance(s, ast.Assign) and len(s.targets) == 1 and isinstance(s.targets[0], (ast.Tuple, ast.List)) and len(s.targets[0].elts) == 1
                 and not isinstance(s.targets[0].elts[0], ast.Starred) and _is_unpack_call(s.value)):
